@@ -14,7 +14,8 @@ RULE = ("histories of 1 create + 0..5 add invocations over the size-class alphab
         "used blocks = the disjoint union of the chains, the files of each side = the files before + the files reported stored there (so a refused file changed nothing: same "
         "catalogue, same contents, free count lowered only by the stored files), every stored file reads back. Each step is also compared with the extracted model. "
         "signature = (flavour, n steps, size classes, flags {refusal-blocks, refusal-catalog, eos, exact-fit, dropped-after-side-3}); non-trivial = a refusal or at least two steps")
-ASSUMPTIONS = c02.ASSUMPTIONS
+ASSUMPTIONS = ["names are ASCII, except the fixed cases whose names cannot be encoded (the model refuses them with the side untouched: C05_unencodable_name_changes_nothing); "
+               "the scratch directory is private; what open()/makedirs() and the kernel do is observed, not modelled"]
 
 
 def gen_step(rng, state, many_ok=True):
